@@ -133,7 +133,7 @@ def rotations3d(tier, rng):
     ident, rest = cube[0], cube[1:]
     if tier == "quick":
         rng.shuffle(rest)
-        rest = rest[:6]
+        rest = rest[:5]
         pyth = rng.sample(PYTH_R3, 2)
     else:
         pyth = PYTH_R3
@@ -431,7 +431,7 @@ def main(tier):
     dropped_budget = 0
     for bi, case in all_cases:
         tp = batches[bi]["tpls"][case["c"][0] - 1]
-        if tier == "quick" and tp["tk"] == "box" and batches[bi]["mode"] == "3D" and rng.random() > 0.5:
+        if tier == "quick" and tp["tk"] == "box" and batches[bi]["mode"] == "3D" and rng.random() > 0.4:
             dropped_budget += 1
             continue
         chosen.append((bi, case))
@@ -564,7 +564,7 @@ def main(tier):
     ck.cov["answers"] = stats
     ck.cov["exhaustive"] = False
     ck.cov["explanation"] = ("TLC exhaustive over the generated cross product (templates x Q x R x viewers x occluder prefixes); "
-                             "the quick tier takes a seeded subset of the cube rotations and replays half of the 3D box cases")
+                             "the quick tier takes a seeded subset of the rotations and replays 40% of the 3D box cases")
     return ck.finish()
 
 
